@@ -47,6 +47,7 @@ type Profile struct {
 	VotePeriods []uint64
 	Probono     bool
 	OracleFee   string
+	Replica     bool // execute every history twice and compare the app hashes
 	Imported    bool // tenants and records (multi-recipient, weighted) imported through genesis
 }
 
